@@ -9,7 +9,9 @@ ID = "C04"
 TITLE = "Emitted RTLIL is behaviourally equivalent to the simulated design"
 RULE = ("case = (generated program as in C02/C03: expressions, statements, 1..3 domains, module hierarchies with signals driven "
         "in one module and read in ancestors, descendants and siblings, partially driven / undriven / zero-width signals, "
-        "nested ResetInserter / EnableInserter / DomainRenamer; or a lib.memory.Memory configuration as in C11; a seeded subset of "
+        "nested ResetInserter / EnableInserter / DomainRenamer; or a lib.memory.Memory configuration as in C11; or a library component (SyncFIFO*, AsyncFIFO*, "
+        "crc.Processor, FFSynchronizer / AsyncFFSynchronizer / ResetSynchronizer / PulseSynchronizer) under its own C12/C13/C16/C17 "
+        "schedule; a seeded subset of "
         "the driven signals is exposed as top-level ports) x (explicit step list of input writes, clock edges alone / coincident, "
         "reset pulses). Side A: the real simulator with a permuted scheduler; side B: rtlil.convert() text executed by "
         "dsim/rtlil_eval.py under the same steps. Non-trivial = an output changed on both sides and a fault kind fired; "
@@ -19,14 +21,15 @@ ASSUMPTIONS = [
     "for exactly the constructs the backend emits; where that reading is not certain the evaluator yields *undefined* bits, "
     "which are not compared ('wherever the RTLIL is defined').",
     "A text the evaluator cannot read, or whose widths/ports/drivers are inconsistent, is itself a violation.",
-    "Inputs never change in the same step as a clock edge; reset changes never share a step with clock edges.",
+    "Inputs never change in the same step as a clock edge. A reset may change in the same step as clock edges (an asynchronous "
+    "reset rising at a clock edge; the asynchronous input of a CDC primitive changing at a clock edge).",
 ]
 COMPONENTS = {"real": ["amaranth.hdl._ir (build_netlist, emit_rhs/emit_assign/emit_drivers, _compute_net_flows/_compute_ports)",
                        "amaranth.hdl._nir", "amaranth.back.rtlil", "amaranth.sim (side A)"],
               "stub": ["RTLIL interpreter dsim/rtlil_eval.py (there is no Yosys offline)", "PermSet scheduler seam",
                        "clock/reset driver"]}
 EXPECTED_PROBES = ("sched", "coincide", "srst", "arst", "submodules", "fsm", "part", "array", "reset_inserter", "enable_inserter",
-                   "domain_renamer", "memory_design", "library_design", "compared_bits", "undefined_bits_skipped", "internal_signals")
+                   "domain_renamer", "memory_design", "library_design", "library_C12", "library_C13", "library_C16", "library_C17", "compared_bits", "undefined_bits_skipped", "internal_signals")
 OPTS = {"max_domains": 3, "max_modules": 4, "wrappers": True, "prints": False, "fsm": True, "max_stmts": 8, "depth": 2,
         "clock_reads": True}
 CHUNK = 4
@@ -41,10 +44,13 @@ def gen_case_i(seed, tier, index):
     if index % 8 == 5:
         # library components (real FIFOs with their synchronisers and memories, CRC processors) under their own C12/C13/C16
         # schedules: simulator vs emitted RTLIL
-        which = ["C12", "C13", "C16"][(index // 8) % 3]
+        which = ["C12", "C13", "C16", "C17"][(index // 8) % 4]
         from dsim import runner as _r
         mod = _r.load(which)
         c = _r.gen(mod, seed, tier, index)
+        while which == "C17" and (c["config"]["kind"] == "pulse_tl" or c["config"].get("shadow_neg")):
+            seed = seed * 6364136223846793005 + 1442695040888963407 & (1 << 64) - 1
+            c = _r.gen(mod, seed, tier, index)
         return {"kind": "lib", "lib": which, "config": c["config"], "steps": c["steps"], "sched": c["sched"]}
     if index % 4 == 3:
         from props import c11
@@ -344,6 +350,45 @@ def lib_adapter(which, config):
 
         def tr(st):
             return ("set", st["v"]) if st["k"] == "set" else ("drive", {k + ".clk": v for k, v in st["l"].items()})
+    elif which == "C17":
+        # clock-domain-crossing primitives: registers with asynchronous set/reset driven by ordinary inputs
+        from amaranth.hdl import Signal, Module, Elaboratable, ResetSignal
+        from amaranth.lib import cdc
+        kind, stages = config["kind"], config["stages"]
+        extra = None
+        if kind == "ff":
+            i, o = Signal(config["width"], name="i"), Signal(config["width"], name="o")
+            dut = cdc.FFSynchronizer(i, o, o_domain="o", init=config["init"], stages=stages, reset_less=config["reset_less"])
+            doms = [DomainSpec("o", edge=config["o_edge"]), DomainSpec("x")]
+            ins, outs = {"i": i}, {"o": o}
+        elif kind == "async":
+            i, o = Signal(name="i"), Signal(name="o")
+            dut = cdc.AsyncFFSynchronizer(i, o, o_domain="o", stages=stages, async_edge=config["async_edge"])
+            doms = [DomainSpec("o"), DomainSpec("x")]
+            extra, ins, outs = {"a": i}, {}, {"o": o}
+        elif kind == "reset":
+            i, o = Signal(name="arst"), Signal(name="o_rst")
+            inner = cdc.ResetSynchronizer(i, domain="o", stages=stages)
+
+            class Obs(Elaboratable):
+                def elaborate(self, platform):
+                    m = Module()
+                    m.submodules.inner = inner
+                    m.d.comb += o.eq(ResetSignal("o"))
+                    return m
+            dut = Obs()
+            doms = [DomainSpec("o", drive_rst=False), DomainSpec("x")]
+            extra, ins, outs = {"a": i}, {}, {"o_rst": o}
+        else:
+            dut = cdc.PulseSynchronizer("i", "o", stages=stages)
+            doms = [DomainSpec("i", edge=config["i_edge"], reset_less=True), DomainSpec("o", edge=config["o_edge"], reset_less=True)]
+            ins, outs = {"i": dut.i}, {"o": dut.o}
+
+        def tr(st):
+            if st["k"] == "set":
+                return ("set", {"i": st["i"]})
+            return ("drive", {(k if k == "a" else k + ".clk"): v for k, v in st["l"].items()})
+        return dut, doms, ins, outs, tr, extra
     else:
         from props import c16
         from amaranth.lib import crc as crclib
@@ -355,7 +400,7 @@ def lib_adapter(which, config):
 
         def tr(st):
             return ("set", st["v"]) if st["k"] == "set" else ("drive", {"sync.clk": st["l"]})
-    return dut, doms, ins, outs, tr
+    return dut, doms, ins, outs, tr, None
 
 
 def run_lib(case, res, stats):
@@ -363,8 +408,9 @@ def run_lib(case, res, stats):
     from dsim.simdrv import ManualRun
     P, F = stats["probes"], stats["faults"]
     P["library_design"] = P.get("library_design", 0) + 1
-    dut, doms, ins, outs, tr = lib_adapter(case["lib"], case["config"])
-    run = ManualRun(dut, doms, sched_mode=case["sched"]["mode"], sched_seed=case["sched"]["seed"])
+    dut, doms, ins, outs, tr, extra = lib_adapter(case["lib"], case["config"])
+    P["library_" + case["lib"]] = P.get("library_" + case["lib"], 0) + 1
+    run = ManualRun(dut, doms, sched_mode=case["sched"]["mode"], sched_seed=case["sched"]["seed"], extra_lines=extra)
     top = run.top
     ports = {"bus": (top.bus, None)}
     for n, s in list(ins.items()) + list(outs.items()):
@@ -415,7 +461,8 @@ def run_lib(case, res, stats):
                             if n in D.top_ports:
                                 D.set_inputs({n: v})
                 else:
-                    changes = {ln: lvl for ln, lvl in payload.items() if drv.level(ln) != lvl}
+                    changes = {ln: (1 - drv.level(ln) if lvl == "toggle" else lvl) for ln, lvl in payload.items()
+                               if lvl == "toggle" or drv.level(ln) != lvl}
                     if changes:
                         stats["edges"] += len(changes)
                         if len(changes) >= 2:
